@@ -185,6 +185,15 @@ def shard(ctx):
             if users and rng.random() < 0.7:
                 rng.choice(users)["body"].append([{"t": "ref", "neg": rng.random() < 0.3, "name": alt["name"], "msg": None}])
             ctx.res.counts["bases_with_alternative_definitions"] += 1
+        if rng.random() < 0.3:
+            # an alternative that raises an evaluation error for some element (`this empty` on a number) inside a query block: with the
+            # error-raising ordering the proviso applies (group inconclusive); if no ordering raises, all orderings must still agree
+            blocks = [a for kind, cnf in gen.iter_cnfs(f) for line in cnf for a in line if a["t"] == "block" and a["body"]]
+            if blocks:
+                b = rng.choice(blocks)
+                line = rng.choice(b["body"])
+                line.insert(rng.randrange(len(line) + 1), gen.clause([["this"]], "empty", None, opneg=rng.random() < 0.5))
+                ctx.res.counts["bases_with_error_prone_alternative"] += 1
         docs = [json.dumps(doc)]
         for _ in range(1 if ctx.quick else 2):
             docs.append(json.dumps(gen.gen_doc(rng)))
